@@ -205,6 +205,24 @@ def _slip39(ctx: Ctx, rng: _Rng) -> None:
         dealt = slip39.mnemonics_from_master_secret(secret, groups, gt, passphrase, exponent, extendable, rng.entropy_source)
     orig = {(g, m): text for g, members in enumerate(dealt) for m, text in enumerate(members)}
     keys = sorted(orig)
+    if ch.chance(1, 3, "single.other-exponent?"):
+        # the same secret under the same passphrase kept a second (and third) time as the single 1-of-1 share a wallet
+        # starts with, at other iteration exponents, in the same process: what such a share carries is the encrypted
+        # master secret itself (both thresholds are one), so the cipher is read off it and held to SLIP-0039's text --
+        # an answer that depends on what was stretched before under another exponent shows here and nowhere in a
+        # round trip, which repeats the dependence on the way back
+        for e2 in ch.shuffled([0, 1, 2], "single.exponents")[: 1 + ch.draw(3, "single.n")]:
+            with ctx.must_succeed(P, "split-succeeds", "slip39/single"):
+                text = slip39.mnemonics_from_master_secret(secret, ((1, 1),), 1, passphrase, e2, extendable, rng.entropy_source)[0][0]
+                sh = slip39.share_from_mnemonic(text)
+            ctx.check(P, "single-share-is-the-encrypted-secret", (sh.iteration_exponent, sh.extendable, sh.member_threshold, sh.group_threshold) == (e2, extendable, 1, 1) and ref.slip39_cipher(sh.value, passphrase, e2, sh.identifier, extendable, True) == secret, lambda: f"exponent {e2} after {exponent}: the 1-of-1 share's value does not decrypt to the secret under SLIP-0039's cipher", site="slip39/single")
+            ok, got = _guarded(ctx, "slip39.recover", lambda text=text: slip39.master_secret_from_mnemonics([text], passphrase))
+            ctx.check(P, "recovered-equals-secret", ok and got == secret, lambda: f"exponent {e2}: the single share recovers {got!r}", site="slip39/single")
+            # and a share the reference wrote, as another implementation would have: the library must read the same secret
+            theirs = slip39.mnemonic_from_share(slip39.Share(sh.identifier, extendable, e2, 0, 1, 1, 0, 1, ref.slip39_cipher(secret, passphrase, e2, sh.identifier, extendable, False)))
+            ok, got = _guarded(ctx, "slip39.recover", lambda theirs=theirs: slip39.master_secret_from_mnemonics([theirs], passphrase))
+            ctx.check(P, "recovered-equals-secret", ok and got == secret, lambda: f"exponent {e2}: a standard 1-of-1 share of the secret recovers {got!r}", site="slip39/standard-share")
+            ctx.probe(f"single-share-at-exponent:{e2}")
     ctx.check(P, "split-shape", [len(x) for x in dealt] == [n for _, n in groups], "one share per member")
 
     def recover(sel: list[str], pw: str) -> bytes:
